@@ -2,8 +2,10 @@
 package c12
 
 import (
+	"bufio"
 	"encoding/json"
 	"fmt"
+	"net"
 	"net/http"
 	"strings"
 
@@ -36,10 +38,11 @@ const (
 	kHostInfixIgnore
 	kHostFork405
 	kNoQueryMark
+	kHijack
 	nKinds
 )
 
-var kindNames = [...]string{"direct(2 params)", "ignored-slash", "redirect", "404", "405", "OPTIONS", "Lookup+Close", "Lookup+Clone", "handler-CloneWith", "handler-Clone-stash", "hostname-direct", "infix-catch-all", "iterators-left-early", "handler-Lookup-inside", "ignored-slash-Clone-stash", "static-hostname-ignored-slash+Lookup-inside", "two-infix-catch-alls-ignored-slash", "hostname-infix-catch-all-ignored-slash", "405-after-backtracking-in-the-hostname-tree", "no-query-string+handler-adds-a-query-value+Clone-stash"}
+var kindNames = [...]string{"direct(2 params)", "ignored-slash", "redirect", "404", "405", "OPTIONS", "Lookup+Close", "Lookup+Clone", "handler-CloneWith", "handler-Clone-stash", "hostname-direct", "infix-catch-all", "iterators-left-early", "handler-Lookup-inside", "ignored-slash-Clone-stash", "static-hostname-ignored-slash+Lookup-inside", "two-infix-catch-alls-ignored-slash", "hostname-infix-catch-all-ignored-slash", "405-after-backtracking-in-the-hostname-tree", "no-query-string+handler-adds-a-query-value+Clone-stash", "handler-hijacks-the-connection-before-writing"}
 
 // world is one router plus the bookkeeping of one execution.
 type world struct {
@@ -258,6 +261,17 @@ func newWorld(withHost bool) *world {
 		w.stashClone(c, c.Clone())
 		w.respond(c)
 	}))
+	// the handler takes the connection over before anything was written (the upgrade flow) and writes nothing
+	must(f.Handle("GET", "/hj/{a}", func(c fox.Context) {
+		w.observe(c, "/hj/{a}", fox.RouteHandler, []string{"a"}, true)
+		conn, _, err := c.Writer().Hijack()
+		if err != nil {
+			w.bad("Hijack() on a writer that supports it returned %v", err)
+		}
+		if conn != nil {
+			conn.Close()
+		}
+	}))
 	// a request without a query string whose handler adds a value to the (per-request) query values and keeps a Clone
 	must(f.Handle("GET", "/nq/{a}", func(c fox.Context) {
 		w.observe(c, "/nq/{a}", fox.RouteHandler, []string{"a"}, true)
@@ -397,6 +411,11 @@ func (w *world) issue(kind int) {
 		w.f.ServeHTTP(rw, w.req("GET", "", "/in/"+tok+"a/end/"+tok+"b"))
 	case kNoQueryMark:
 		w.f.ServeHTTP(rw, w.req("GET", "", "/nq/"+tok+"a"))
+	case kHijack:
+		w.f.ServeHTTP(hijackRW{rw}, w.req("GET", "", "/hj/"+tok+"a"))
+		if rw.Code != 0 || len(rw.Body) != 0 {
+			w.bad("a request whose handler only hijacked the connection got status=%d body=%d through the writer", rw.Code, len(rw.Body))
+		}
 	case kHandlerLookup:
 		w.f.ServeHTTP(rw, w.req("GET", "", "/hl/"+tok+"a"))
 	case kIgnoreCloneStash:
@@ -462,7 +481,7 @@ func (w *world) issue(kind int) {
 	if wantObserved && !w.cur.observed {
 		w.bad("no handler observed the request (status %d)", rw.Code)
 	}
-	if kind != kLookupClose && kind != kLookupClone && kind != kRedirect && kind != kIterBreak {
+	if kind != kLookupClose && kind != kLookupClone && kind != kRedirect && kind != kIterBreak && kind != kHijack {
 		n := len(tok)
 		if rw.Code != 200+n || len(rw.Body) != n || rw.H.Get("X-Resp") != tok {
 			w.bad("response status=%d body=%d X-Resp=%q, want %d/%d/%q", rw.Code, len(rw.Body), rw.H.Get("X-Resp"), 200+n, n, tok)
@@ -710,11 +729,20 @@ func (w *world) cloneWithOther(c fox.Context) {
 	cc.Close()
 }
 
+// hijackRW is an underlying writer whose connection can be taken over.
+type hijackRW struct{ *fx.RW }
+
+func (h hijackRW) Hijack() (net.Conn, *bufio.ReadWriter, error) {
+	a, b := net.Pipe()
+	b.Close()
+	return a, nil, nil
+}
+
 func init() {
 	mc.Register(&mc.Check{
 		ID:    "C12",
 		Level: "model_checking",
-		Rule: "every sequence up to a length of requests from a 20-kind alphabet (direct, ignored slash, redirect, 404, 405, OPTIONS, manual Lookup(+Clone), CloneWith, Clone, hostname, infix catch-all, every iterator consumed fully and left at its first element, a handler doing a Lookup for another request, a slash-adjusted match whose handler keeps a Clone, a static-hostname slash-adjusted match whose handler looks up another slash-adjusted request), with an optional tree replacement before each request, x EVERY answer of the context pool at every Pool.Get (any of the pooled contexts or a fresh one: data choice points of the controlled scheduler); every request carries a unique token in every observable field and every Context getter is checked inside every handler; stashed clones are re-read after every later request; " +
+		Rule: "every sequence up to a length of requests from a 21-kind alphabet (direct, ignored slash, redirect, 404, 405, OPTIONS, manual Lookup(+Clone), CloneWith, Clone, hostname, infix catch-all, every iterator consumed fully and left at its first element, a handler doing a Lookup for another request, a slash-adjusted match whose handler keeps a Clone, a static-hostname slash-adjusted match whose handler looks up another slash-adjusted request), with an optional tree replacement before each request, x EVERY answer of the context pool at every Pool.Get (any of the pooled contexts or a fresh one: data choice points of the controlled scheduler); every request carries a unique token in every observable field and every Context getter is checked inside every handler; stashed clones are re-read after every later request; " +
 			"plus two-thread schedules; distinct_nontrivial = distinct (sequence, outcome) classes",
 		Assumptions: []string{
 			"sync.Pool may return any previously Put object or a fresh one: the shim makes that choice explicit and the explorer enumerates it",
@@ -731,7 +759,7 @@ func init() {
 				} else {
 					seqs = sequences(maxLen, kinds, true)
 				}
-				r.Bounds["sequences"] = fmt.Sprintf("%d sequences (20 kinds; quick: all of length<=2 with tree replacement + length 3 over 11 kinds; thorough: all of length<=3 with tree replacement), unbounded exploration of pool answers", len(seqs))
+				r.Bounds["sequences"] = fmt.Sprintf("%d sequences (21 kinds; quick: all of length<=2 with tree replacement + length 3 over 11 kinds; thorough: all of length<=3 with tree replacement), unbounded exploration of pool answers", len(seqs))
 				for i, s := range seqs {
 					if !c.Mine(i) {
 						continue
